@@ -20,4 +20,5 @@ let () =
   register "validity" (function [cur; ct; ex; kct; ha; out] ->
       ((match check_validity (z_of_hex cur) (z_of_hex ct) (z_of_hex ex) (z_of_hex kct) (n_of_hex ha) with
         | Valid -> "1" | _ -> "0"), out) | _ -> bad ());
+  register "aead_nonce" (function [iv; c; out] -> (tb (chunk_nonce_impl (bt iv) (nat_of_int (int_of_string c))), out) | _ -> bad ());
   main ()
